@@ -440,7 +440,7 @@ def run_obligation(ob, repo, tier, known):
         ctx.findings = definite
     if status != ERROR:
         for f in ctx.findings:
-            k = match_known(known, ob.prop, ob.oid, f)
+            k = match_known(known, ob.prop, getattr(ob, 'base_oid', ob.oid), f)
             if k is not None:
                 f.status, f.known = KNOWN, k
         if any(f.status == VIOLATION for f in ctx.findings):
